@@ -167,6 +167,42 @@ func runC17(p *load.Program, r *core.Report) {
 			default:
 				r.OK(rule, key, fn, p.Pos(calls[0].Pos()), inst, "single call site, no spawn reachable after it")
 			}
+			// the reason of an earlier run is forgotten: a nil store into a.reason on every successful path
+			{
+				key := "C17.A1|" + fn + "|reason-reset"
+				inst := "a successful start clears the termination reason left by the previous run (the Terminate callback is told the reason of this run)"
+				isReset := func(in ssa.Instruction) bool {
+					s2, ok := in.(*ssa.Store)
+					if !ok {
+						return false
+					}
+					own, fl := fieldOwner(s2.Addr)
+					return own != nil && own.Obj().Name() == "application" && fl == "reason" && isNilConst(s2.Val)
+				}
+				bad := reaches([]Point{{start.Blocks[0], 0}}, isReset, func(in ssa.Instruction) bool {
+					ret, ok := in.(*ssa.Return)
+					return ok && errKind(ret.Results[0]) == "nil"
+				})
+				// alternative: terminate clears it after the callback
+				altOK := false
+				if bad != nil {
+					if term := p.Func("node", "application", "terminate"); term != nil {
+						eachInstr(term, func(in ssa.Instruction) {
+							cc := callCommon(in)
+							if cc != nil && cc.IsInvoke() && cc.Method.Name() == "Terminate" {
+								if reaches([]Point{after(in)}, isReset, isReturn) == nil {
+									altOK = true
+								}
+							}
+						})
+					}
+				}
+				if bad != nil && !altOK {
+					r.Bad(rule, key, fn, p.Pos(bad.Pos()), inst, "a.reason is never cleared: an application that is started again and then ends because its last member finished normally tells its Terminate callback the reason of the previous run")
+				} else {
+					r.OK(rule, key, fn, p.Pos(start.Pos()), inst, "a.reason = nil on every successful path of start (or after the callback)")
+				}
+			}
 			// the requested mode is the mode the application runs in: stored before the successful return
 			{
 				key := "C17.A1|" + fn + "|mode-stored"
